@@ -262,6 +262,30 @@ def check_layout_invariance(scn, ref_cache):
     return out
 
 
+def check_mixed_backing(scn, ref_cache):
+    """O10: an in-memory cube with dask-backed secondary rasters (a loaded cube next to rasters opened
+    lazily) must give what the all-in-memory call gives (the result may come back lazy)."""
+    import dask
+
+    ref, ref_exc = ref_cache["ref"]
+    if ref is None or not scn.get("secondary"):
+        return []
+    mixed = dict(scn)
+    mixed["secondary_backing"] = {k: "dask" for k in scn["secondary"]}
+    mixed["secondary_chunks"] = None
+    cube = S.build_cube(mixed)
+    aux = S.build_aux(mixed, lazy=True)  # lazy=True -> secondaries are chunked as drawn
+    try:
+        res = S.apply_op(mixed, cube, lazy=True, aux=aux)
+        (res,) = dask.compute(res, scheduler="synchronous")
+    except Exception as e:  # noqa: BLE001
+        return [("mixed-backing-raises", f"in-memory cube with dask-backed {sorted(scn['secondary'])} raised {type(e).__name__}: {str(e)[:160]} while the all-in-memory call succeeded")]
+    out = []
+    for cls, msg in S.compare(ref, S.normalise(res)):
+        out.append((f"mixed-backing-differs-{cls}", f"in-memory cube with dask-backed {sorted(scn['secondary'])}: {msg}"))
+    return out
+
+
 def check_real_schedulers(scn, ref_cache):
     """O4 cross-check with dask's real synchronous and threaded schedulers (warm kernels)."""
     import dask
@@ -488,10 +512,18 @@ def job_op(job):
                 lv = []
             agg.bump("probes", "layout_invariance_checked")
             rr.violations.extend(lv)
+            if scn.get("secondary"):
+                try:
+                    mv = check_mixed_backing(scn, cache)
+                except Exception as e:  # noqa: BLE001
+                    agg.d["harness"].append(f"{key}: mixed-backing: {type(e).__name__}: {e}")
+                    mv = []
+                agg.bump("probes", "mixed_backing_checked")
+                rr.violations.extend(mv)
         if rr.violations:
 
             def minimiser(vclass, budget, scn=scn, cfg=cfg, rr=rr):
-                if vclass in ("pixel-equivariance", "layout-invariance"):
+                if vclass in ("pixel-equivariance", "layout-invariance") or vclass.startswith("mixed-backing"):
                     return None
                 mcache = {}
 
@@ -628,6 +660,11 @@ def replay_file(path):
     else:
         print(f"unknown workload {wl}")
         return 2
+    if wl == "A" and want.startswith("mixed-backing"):
+        cache = {}
+        ref, ref_exc, _ = runner.eager_reference(payload["scenario"])
+        cache["ref"] = (ref, ref_exc)
+        rr.violations.extend(check_mixed_backing(payload["scenario"], cache))
     if wl == "A" and want == "layout-invariance":
         cache = {}
         ref, ref_exc, _ = runner.eager_reference(payload["scenario"])
